@@ -44,6 +44,11 @@ def run(ctx):
             cases.append({"w": wire.case("serialize_and_sign", pl, Ed25519PrivateKey.from_private_bytes(sd)), "meta": {"k": "libsign", "seed": sd.hex()}})
             cases.append({"w": wire.case("sign_sequence", pl, [sd]), "meta": {"k": "filed", "seed": sd.hex()}})
             cases.append({"w": wire.case("keyfile_roundtrip", sd), "meta": {"k": "files", "seed": sd.hex()}})
+    # (1a) payloads that are falsy in Python are JSON values like any other: [] "" 0 0.0 null false {} and containers of them
+    for j, pl in enumerate([[], "", 0, 0.0, -0.0, None, False, {}, [[]], {"": []}, [0], "0"]):
+        sd = seeds[j % len(seeds)]
+        cases.append({"w": wire.case("sign_sequence", pl, [sd]), "meta": {"k": "filed", "seed": sd.hex()}})
+        cases.append({"w": wire.case("serialize_and_sign", pl, Ed25519PrivateKey.from_private_bytes(sd)), "meta": {"k": "libsign", "seed": sd.hex()}})
     # (1b) signing an envelope that already holds entries under other notations of the signer's key (and other keys):
     # the new signature is filed under the canonical hex, nothing else changes
     for sd in seeds[:6]:
@@ -116,6 +121,8 @@ def run(ctx):
             env = wire.dec(io[1:]) if io.startswith("O") else None
             if not env or list(env["signatures"]) != [R.secret_to_public(sd).hex()]:
                 return "the signature is not filed under the hex of the RFC 8032 public key of the seed"
+            if env["signatures"][R.secret_to_public(sd).hex()] != {"signature": R.sign(sd, E.canon(tup[1])).hex()}:
+                return "the signature filed is not the RFC 8032 signature of the seed over the canonical bytes of the payload %r" % (tup[1],)
         elif m["k"] == "filed-pre":
             sd = bytes.fromhex(m["seed"])
             env = wire.dec(io[1:]) if io.startswith("O") else None
@@ -142,6 +149,27 @@ def run(ctx):
                 if not ok:
                     return "malformed key encoding accepted: %r" % (arg,)
         return None
+    # key files as found on disk: the two files are independent inputs -- the public key loaded is the one in the .pub file, and a .pub
+    # file of the wrong length or encoding is rejected
+    kcases = []
+    s0, s1 = seeds[0], seeds[1]
+    for pri, pub in ((s0, ed_pub(s0)), (s0, ed_pub(s1)), (s1, ed_pub(s0)), (s0, ed_pub(s0)[:31]), (s0, ed_pub(s0) + b"\x00"), (s0, b""), (s0, ed_pub(s0).hex().encode()),
+                     (s0[:31], ed_pub(s0)), (s0 + b"\n", ed_pub(s0)), (b"", b""), (s0, ed_pub(s0) + b"\n")):
+        kcases.append({"w": wire.case("keyfiles_load", pri, pub), "meta": {"k": "keyfiles"}})
+
+    def koracle(c, io):
+        _, pri, pub = wire.dec(c["w"])
+        good = len(pri) == 32 and len(pub) == 32
+        if good:
+            if io != "O" + wire.enc([pri, pub]):
+                return "key files holding a 32-byte private and a 32-byte public value do not load back as those two keys: %s" % io[:80]
+        elif io.startswith("O"):
+            return "a key file of the wrong length (private %d bytes, public %d bytes) was accepted" % (len(pri), len(pub))
+        elif core.impl_class(io) not in ("TypeError", "ValueError"):
+            return "malformed key file ended in %s" % core.impl_class(io)
+        return None
+    core.run_stream(ctx, core.Stream("keyfiles_to_keys on key files given as bytes (consistent pairs, pairs from different seeds, wrong lengths, hex text)", kcases,
+                                     lambda c, io, mo: None, koracle, model=False))
     # the Gallina specification of RFC 8032 (extracted, no oracle table) against the library's backend: same public key, same signature
     # bytes, same verdicts (also on corrupted signatures and the RFC's vectors); SHA-512 against hashlib
     gseeds = [bytes.fromhex(R.VECTORS[1][0])] + ([] if ctx.quick else [rng.randbytes(32), special[0]] + [rng.randbytes(32) for _ in range(10)] + special[1:4])
